@@ -51,6 +51,10 @@ def make_hooks(idx, spec):
             k = _attempt("su", idx)
             raises = k in spec["setUpRaises"] or 999999 in spec["setUpRaises"]
             trace({"ev": "lsu", "l": idx, "ok": not raises})
+            if spec.get("dieInSetUp"):
+                trace({"ev": "die", "how": spec["dieInSetUp"]})
+                sys.stdout.flush()
+                os._exit(0 if spec["dieInSetUp"] == "exit0" else 3)
             if raises:
                 raise LayerError("setUp of layer %d fails (attempt %d)" % (idx, k))
         hooks["setUp"] = setUp
@@ -63,6 +67,10 @@ def make_hooks(idx, spec):
                     code = c
                     break
             trace({"ev": "ltd", "l": idx, "r": ["ok", "raise", "notimpl"][code]})
+            if spec.get("dieInTearDown"):
+                trace({"ev": "die", "how": spec["dieInTearDown"]})
+                sys.stdout.flush()
+                os._exit(0 if spec["dieInTearDown"] == "exit0" else 3)
             if code == 1:
                 raise LayerError("tearDown of layer %d fails" % idx)
             if code == 2:
@@ -126,7 +134,18 @@ def do_part(test, ph, part):
                 buf.flush()
             else:
                 stream.write("TOK%dK\n" % tok)
+    if part.get("fd2"):
+        os.write(2, part["fd2"].encode("latin-1"))
     exc = part.get("exc")
+    if exc in ("exit0", "exit3", "sigkill", "segv"):
+        trace({"ev": "die", "how": exc})
+        sys.stdout.flush()
+        if exc == "exit0":
+            os._exit(0)
+        if exc == "exit3":
+            os._exit(3)
+        import signal
+        os.kill(os.getpid(), signal.SIGKILL if exc == "sigkill" else signal.SIGSEGV)
     if exc == "fail":
         raise AssertionError("failure in %s of t%d" % (ph, test.spec["id"]))
     if exc == "error":
